@@ -139,7 +139,11 @@ def _eval_hexsym(case):
 
     vs = []
     p, cu, n, sym = case["pitch"], case["cornersUp"], case["rings"], case["symmetry"]
-    g = grids.HexGrid.fromPitch(p, numRings=n, cornersUp=cu, symmetry=sym)
+    if case.get("from"):
+        g = grids.HexGrid.fromPitch(case["from"], numRings=n, cornersUp=cu, symmetry=sym)
+        g.changePitch(p)
+    else:
+        g = grids.HexGrid.fromPitch(p, numRings=n, cornersUp=cu, symmetry=sym)
     ui, uj = hex_unit(p, cu)
     third = sym.startswith("third")
     lines = {0: gc.BOUNDARY_0_DEGREES, 1: gc.BOUNDARY_60_DEGREES, 2: gc.BOUNDARY_120_DEGREES}
@@ -378,32 +382,43 @@ def _eval_pivot(case):
 
 
 def _eval_cartsym(case):
+    """Images are computed from the *coordinates the grid reports* for the cell and compared with
+    the coordinates the grid reports for the equivalents: no lattice map of our own is needed, so
+    grids whose pitch was changed after construction are judged by the same oracle."""
     from armi.reactor import grids
 
     vs = []
     sym, thr, w, h, n = case["symmetry"], case["through"], case["w"], case["h"], case["rings"]
-    g = grids.CartesianGrid.fromRectangle(w, h, numRings=n, symmetry=sym, isOffset=not thr)
-    off = (0.0, 0.0) if thr else (w / 2.0, h / 2.0)
+    frm = case.get("from")  # None: built at the final pitch; [w0, h0]: built at (w0, h0), then changePitch(w, h)
+    if frm:
+        g = grids.CartesianGrid.fromRectangle(frm[0], frm[1], numRings=n, symmetry=sym, isOffset=not thr)
+        g.changePitch(w, h)
+    else:
+        g = grids.CartesianGrid.fromRectangle(w, h, numRings=n, symmetry=sym, isOffset=not thr)
     periodic = "periodic" in sym
     full = sym.startswith("full")
     if periodic and w != h:
         raise RuntimeError("periodic quarter symmetry needs a square pitch")
     tag = ("full" if full else ("periodic" if periodic else "reflective")) + ("-through-centre" if thr else "-offset")
+    how = "built at pitch (%r, %r)" % (w, h) if not frm else "built at (%r, %r) then changePitch(%r, %r)" % (frm[0], frm[1], w, h)
     nev = nt = 0
     cnt = {"cart_online": 0, "cart_offline": 0}
+    tol = 1e-9 * (1.0 + n * max(w, h))
 
     def bad(key, msg, **kw):
         c = dict(case)
         c.update(kw)
         vs.append(core.viol("c08/" + key, msg, c))
 
-    def cell_of(xy):
-        fi, fj = (xy[0] - off[0]) / w, (xy[1] - off[1]) / h
-        i, j = int(round(fi)), int(round(fj))
-        if abs(fi - i) > 1e-6 or abs(fj - j) > 1e-6:
-            raise RuntimeError("oracle: %r is not a Cartesian cell centre" % (xy,))
-        return (i, j)
+    def same(p, q):
+        return abs(p[0] - q[0]) <= tol and abs(p[1] - q[1]) <= tol
 
+    def xy_of(cell):
+        c = g.getCoordinates((cell[0], cell[1], 0))
+        return (float(c[0]), float(c[1]))
+
+    if not _close(g.pitch, (w, h)):
+        bad("cart-pitch", "%s: pitch reads %s" % (how, (g.pitch,)))
     rng = range(-n + 1, n) if thr else range(-n, n)
     only = case.get("cell")
     cells = [tuple(only)] if only else [(i, j) for i in rng for j in rng]
@@ -411,11 +426,7 @@ def _eval_cartsym(case):
         bad("cart-through-centre-flag", "symmetry %r parsed with isThroughCenterAssembly=%s" % (sym, g.symmetry.isThroughCenterAssembly))
     for i, j in cells:
         nev += 1
-        x, y = i * w + off[0], j * h + off[1]
-        real = g.getCoordinates((i, j, 0))
-        if not _close(real[:2], (x, y)):
-            bad("cart-centre-premise", "cell (%d,%d): grid centre %s, affine map %s" % (i, j, list(real), (x, y)), cell=[i, j])
-            continue
+        x, y = xy_of((i, j))
         got = [_ij(e) for e in g.getSymmetricEquivalents((i, j))]
         got3 = [_ij(e) for e in g.getSymmetricEquivalents((i, j, 0))]
         if got != got3:
@@ -429,19 +440,25 @@ def _eval_cartsym(case):
             imgs = [rot((x, y), 90), rot((x, y), 180), rot((x, y), 270)]
         else:
             imgs = [(-x, y), (-x, -y), (x, -y)]
-        exp = []
+        exp = []  # distinct images other than the centre itself
         for im in imgs:
-            cidx = cell_of(im)
-            if cidx != (i, j) and cidx not in exp:
-                exp.append(cidx)
+            if not same(im, (x, y)) and not any(same(im, q) for q in exp):
+                exp.append(im)
         if exp:
             nt += 1
         if len(set(got)) != len(got) or (i, j) in got:
             bad("cart-equivalents-duplicate-" + tag, "cell (%d,%d): equivalents %s contain a duplicate or the cell itself" % (i, j, got), cell=[i, j])
-        if sorted(got) != sorted(exp):
-            bad("cart-equivalents-" + tag, "cell (%d,%d) centre %s, %s: reported equivalents %s; %s of the centre land on cells %s" % (i, j, (x, y), sym, got, "90/180/270 degree rotations" if periodic else "axis reflections", exp), cell=[i, j])
+        gxy = [xy_of(e) for e in got]
+        unmatched = [im for im in exp if not any(same(im, q) for q in gxy)]
+        extra = [(e, q) for e, q in zip(got, gxy) if not any(same(im, q) for im in exp)]
+        if unmatched or extra or len(got) != len(exp):
+            bad(
+                "cart-equivalents-" + tag,
+                "%s, %s: cell (%d,%d) has its centre at %s; the %s of the centre are %s, but the reported equivalents %s have their centres at %s" % (how, sym, i, j, (x, y), "90/180/270 degree rotations" if periodic else "axis reflections", exp, got, gxy),
+                cell=[i, j],
+            )
             continue
-        online = abs(x) < 1e-9 or abs(y) < 1e-9
+        online = abs(x) <= tol or abs(y) <= tol
         cnt["cart_online" if online else "cart_offline"] += 1
         nin = 0
         for mem in [(i, j)] + got:
@@ -449,9 +466,9 @@ def _eval_cartsym(case):
             r_ = bool(g.locatorInDomain(ml))
             nin += r_
             if mem == (i, j):
-                w_ = x > -1e-9 and y > -1e-9
+                w_ = x > -tol and y > -tol
                 if r_ != w_ or bool(g.locatorInDomain(ml, symmetryOverlap=True)) != w_:
-                    bad("cart-domain-" + tag, "locatorInDomain((%d,%d))=%s but the centre %s is %s the closed first quadrant" % (i, j, r_, (x, y), "in" if w_ else "outside"), cell=[i, j])
+                    bad("cart-domain-" + tag, "%s: locatorInDomain((%d,%d))=%s but the centre %s is %s the closed first quadrant" % (how, i, j, r_, (x, y), "in" if w_ else "outside"), cell=[i, j])
         if not online and (nin != 1 or len(got) != 3):
             bad("cart-orbit-domain-count-" + tag, "orbit %s off the axes has %d members in the domain" % ([(i, j)] + got, nin), cell=[i, j])
         if online and nin < 1:
@@ -465,14 +482,27 @@ def _eval_cartsym(case):
 _BP = {}
 
 
+VECTOR_PATTERNS = ["generic", "x-zero", "y-zero", "zero", "equal"]
+
+
+def _vec(pattern, a, b):
+    """A 2-vector of the given shape: code that tests truthiness treats 0.0 like 'not set'."""
+    return {"generic": [a, b], "x-zero": [0.0, b], "y-zero": [a, 0.0], "zero": [0.0, 0.0], "equal": [a, a]}[pattern]
+
+
 def inits(ctx):
     s = ctx.seed
     out = []
+    combo = 0
+    nmixed = 0
+    P = VECTOR_PATTERNS
     for rings in (1, 2, 3):
         for pcu in (False, True):
             for variant in ("blueprint", "mixed", "auto"):
                 if variant == "auto" and rings == 1:
                     continue  # orientBlocks needs multiplicities {1, N}
+                dx, dy = 0.3 + 0.01 * (s % 5), -0.7
+                fx, fy = 0.37 + 0.05 * (s % 3), -0.21
                 for via in ("block", "assembly"):
                     out.append(
                         {
@@ -481,12 +511,17 @@ def inits(ctx):
                             "pinPitch": [1.0, 1.23, 1.1][(rings + s) % 3] if variant != "auto" else AUTO_PITCH,
                             "variant": variant,
                             "via": via,
-                            "disp": [0.3 + 0.01 * (s % 5), -0.7],
-                            "free": [0.37 + 0.05 * (s % 3), -0.21, 1.5],
+                            # displacement of block 0, block 1: every shape occurs for both ways of rotating
+                            "disps": [_vec(P[(combo + s) % 5], dx, dy), _vec(P[(combo + s + 2) % 5], dx + 1.0, dy - 2.0)],
+                            # free-coordinate children (mixed variant): duct, coolant
+                            "free": _vec(P[(nmixed + s) % 5], fx, fy) + [1.5],
+                            "free2": _vec(P[(nmixed + s + 2) % 5], -fy, fx) + [0.0],
                             "orient0": [1.0, 2.0, 60.0 * ((s + rings) % 6)] if variant == "mixed" else [0.0, 0.0, 0.0],
                             "bbase": 10.0 + (s % 7),
                         }
                     )
+                combo += 1
+                nmixed += variant == "mixed"
     return out
 
 
@@ -573,14 +608,22 @@ def _fresh(init):
     if not isinstance(a, assemblies.HexAssembly) or not isinstance(a[0], blocks.HexBlock) or a[0].spatialGrid is None:
         raise RuntimeError("generator did not give a HexAssembly with a pin grid")
     for bi, b in enumerate(a):
-        for ni, name in enumerate(_boundary_names(b)):
+        names = _boundary_names(b)
+        for ni, name in enumerate(names):
             vals = [init["bbase"] + 100.0 * bi + 10.0 * ni + q + 1.0 for q in range(6)]
+            if ni % 4 == 2:
+                vals = [float(q - 2 - bi) for q in range(6)]  # negative entries and an exact 0.0
+            elif ni % 4 == 3:
+                vals = [5.0, 5.0, 0.0, 0.0, 7.0 + bi, 5.0]  # equal and zero entries, no rotational symmetry
+            if init["variant"] == "auto" and ni == len(names) - 1:
+                vals = [0.0] * 6  # set, but all zero
             if init["variant"] == "mixed" and ni == 0:
                 b.p[name] = np.array([[v, -v] for v in vals])  # per-corner vector data
             else:
                 b.p[name] = np.array(vals) if (ni % 2) else list(vals)
-        b.p.displacementX = init["disp"][0] + bi
-        b.p.displacementY = init["disp"][1] - 2.0 * bi
+        d = init["disps"][bi % len(init["disps"])]
+        b.p.displacementX = d[0]
+        b.p.displacementY = d[1]
         if init["variant"] == "mixed":
             b.p.orientation = np.array(init["orient0"], dtype=float)
             g = b.spatialGrid
@@ -588,6 +631,8 @@ def _fresh(init):
                 for c in b:
                     if c.name == "duct":
                         c.spatialLocator = grids.CoordinateLocation(init["free"][0], init["free"][1], init["free"][2], g)
+                    elif c.name == "coolant":
+                        c.spatialLocator = grids.CoordinateLocation(init["free2"][0], init["free2"][1], init["free2"][2], g)
                     elif c.name == "intercoolant":
                         c.spatialLocator = None
                     elif c.name == "guide":
@@ -887,18 +932,24 @@ def cases(ctx):
     for cu in (False, True):
         for p in pitches:
             out.append({"kind": "hexsym", "cornersUp": cu, "pitch": p, "rings": n, "symmetry": "third periodic"})
+        out.append({"kind": "hexsym", "cornersUp": cu, "pitch": pitches[1], "rings": n, "symmetry": "third periodic", "from": 1.0})
         out.append({"kind": "hexsym", "cornersUp": cu, "pitch": pitches[1], "rings": n, "symmetry": "full"})
         for p in pitches[:2]:
             out.append({"kind": "hexrot", "cornersUp": cu, "pitch": p, "rings": n, "kmax": B["kmax"], "compmax": B["compmax"]})
     out.append({"kind": "rotcell", "rings": n})
     out.append({"kind": "pivot"})
+    sq = 1.26 + 0.1 * (s % 3)
     for thr in (True, False):
         suffix = " through center assembly" if thr else ""
-        for wh in ([1.0, 1.0], [1.26 + 0.1 * (s % 3), 1.26 + 0.1 * (s % 3)]):
-            out.append({"kind": "cartsym", "symmetry": "quarter periodic" + suffix, "through": thr, "w": wh[0], "h": wh[1], "rings": n})
-        for wh in ([1.0, 1.0], [1.26, 2.5]):
-            out.append({"kind": "cartsym", "symmetry": "quarter reflective" + suffix, "through": thr, "w": wh[0], "h": wh[1], "rings": n})
-        out.append({"kind": "cartsym", "symmetry": "full" + suffix, "through": thr, "w": 1.26, "h": 2.5, "rings": n})
+        # (final w, final h, built-at pitch or None); periodic symmetry needs a square final pitch
+        periodic = [(1.0, 1.0, None), (sq, sq, None), (sq, sq, [1.0, 1.0]), (1.5, 1.5, [2.0, 0.5])]
+        reflective = [(1.0, 1.0, None), (1.26, 2.5, None), (1.26, 2.5, [1.0, 1.0]), (3.0, 3.0, [1.0, 1.0]), (2.52, 5.0, [1.26, 2.5]), (1.0, 1.0, [2.0, 3.0]), (2.0, 3.0, [1.0, 1.0])]
+        for name, fam in (("quarter periodic", periodic), ("quarter reflective", reflective), ("full", [(1.26, 2.5, None), (1.26, 2.5, [1.0, 1.0])])):
+            for w_, h_, frm in fam:
+                c = {"kind": "cartsym", "symmetry": name + suffix, "through": thr, "w": w_, "h": h_, "rings": n}
+                if frm:
+                    c["from"] = frm
+                out.append(c)
     # Part 2
     ops = B["hist_ops"]
     hists = [[]]
